@@ -196,6 +196,49 @@ func checkC18(w *World, r *Report) {
 		})
 		r.Check(inLoop, "per-job.stage-variables", FuncName(gb)+": one variable container per stage", w.Pos(gb.Pos()), "the container is created inside the stage loop", "stages share one variable container")
 	}
+	// ---- STAGE VARIABLES WIN: the variables a task runs with (script rendering, job identity)
+	// are the stage's, i.e. the job's: wherever the stage runner composes Task.Variables, the
+	// stage's container is the argument of the merge (the argument wins, order.upstream-merge) —
+	// unless nothing in the module ever gives a task variables of its own.
+	if rs := w.FuncByRole("taskctl", "(*Scheduler).runStage", func(f *ssa.Function) bool {
+		return recvIs(f, "Scheduler") && f.Signature.Params().Len() == 1 && typeShort(f.Signature.Params().At(0).Type()) == "Stage"
+	}); rs == nil {
+		r.Undecided("order.stage-variables", "taskctl: stage runner", "-", "the function that runs one stage is not found")
+	} else {
+		isTaskVars := func(addr ssa.Value) bool {
+			fa, ok := w.resolveAddr(addr).(*ssa.FieldAddr)
+			return ok && fieldOfAddr(fa).String() == "Task.Variables"
+		}
+		var otherWriters []string
+		for _, fn := range w.ModFuncs {
+			if fn == rs {
+				continue
+			}
+			allInstrs(fn, func(in ssa.Instruction) {
+				if st, ok := in.(*ssa.Store); ok && isTaskVars(st.Addr) {
+					otherWriters = append(otherWriters, FuncName(fn)+" ("+w.InstrPos(in)+": "+w.AP(st.Val)+")")
+				}
+			})
+		}
+		n := 0
+		allInstrs(rs, func(in ssa.Instruction) {
+			st, ok := in.(*ssa.Store)
+			if !ok || !isTaskVars(st.Addr) {
+				return
+			}
+			n++
+			val := w.AP(st.Val)
+			stageWins := val == "arg0.Variables"
+			if c, ok := w.Resolve(st.Val).(*ssa.Call); ok && strings.HasSuffix(calleeName(&c.Call), "variables.Merge") && len(c.Call.Args) == 2 {
+				stageWins = w.AP(c.Call.Args[1]) == "arg0.Variables"
+			}
+			r.Check(stageWins || len(otherWriters) == 0, "order.stage-variables", FuncName(rs)+": Task.Variables := "+strings.TrimPrefix(val, "github.com/taskctl/taskctl/pkg/"), w.InstrPos(in),
+				"the stage's variables (the job's variables and its identity) are what the task runs with", "the task's variables are composed as "+val+" — the stage's container is not the winning argument — while "+strings.Join(otherWriters, ", ")+" gives tasks variables of their own: a task-level name replaces the job's variable of the same name in the rendered script, and a task-level __jobID attributes the task's logs and state to another job")
+		})
+		if n == 0 {
+			r.Viol("order.stage-variables", FuncName(rs)+": Task.Variables", w.Pos(rs.Pos()), "the stage runner never hands the stage's variables to the task: scripts are rendered without the job's variables")
+		}
+	}
 	// TaskRunner reads the job id from the task's own variables
 	r.Floor("order.", 6)
 	r.Floor("wiring", 8)
